@@ -106,7 +106,11 @@ class BodyTerms(object):
                 if "closure" in e and t == ("param", 1) and self.body.is_closure:
                     t = ("upvar", e.get("name", str(e["i"])))
                 else:
-                    t = ("field", t, e.get("name", str(e["i"])), e.get("adt") or ("tuple" if e.get("tuple") else None))
+                    name = e.get("name", str(e["i"]))
+                    if t[0] == "agg" and t[1] in ("tuple", "adt") and e["i"] < len(t[3]) and (t[1] == "tuple" or name in t[4]):
+                        t = t[3][e["i"]]  # field of an aggregate built here: project it
+                    else:
+                        t = ("field", t, name, e.get("adt") or ("tuple" if e.get("tuple") else None))
             elif k == "index":
                 t = ("index", t, self.local(e["l"]))
             elif k == "cindex":
